@@ -3,6 +3,7 @@
 import json, os, random, re, time
 from vlib import *
 from key_scripts import *
+import replay as _rp
 
 
 def run_keys_check(pid, tier, seed, wd):
@@ -79,6 +80,8 @@ def run_keys_check(pid, tier, seed, wd):
                 if b != a:
                     f.write(lines[b])
             ea, eb = json.loads(lines[a]), json.loads(lines[b])
+            _rp.sidecar(tp, "keys", {"lines": [{"sig": e["sig"], "flavour": e["flavour"], "model": e["model"], "parts": e["parts"]}
+                                               for e in ([ea] if a == b else [ea, eb])]})
             violations.append(("%s: distinct argument tuples share the cache key %r" % (ea["fn"], ea["key"])
                                if a != b else "%s: repeated call with the same tuple was not served from the cache" % ea["fn"], tp))
         if not coll:
